@@ -153,7 +153,7 @@ def length_guard(b, bb, param):
 
 def lz13_classes(facts, rep, R1, R2):
     for fmtn in (LZ10, LZ13):
-        b = facts.body(fmtn + "::decompress")
+        b = facts.ibody(fmtn + "::decompress", combinators=True)
         if b is None or not b.pub:
             rep.inconc(R2, "anchor %s::decompress missing" % fmtn)
             continue
@@ -171,7 +171,7 @@ def lz13_classes(facts, rep, R1, R2):
         if not acc:
             rep.ok(R2, {"fn": b.name, "raw_accesses": 0})
     # first-byte classes of the LZ13 entry point
-    b = facts.body(LZ13 + "::decompress")
+    b = facts.ibody(LZ13 + "::decompress", combinators=True)
     if b is None:
         return
     try:
@@ -280,7 +280,7 @@ def ok_provenance(facts, rep, R5):
     """Every path of the two decompress entry points that returns Ok returns the decoder's output;
     the only exception is LZ13's stored form (first byte 0), which returns the payload after the header."""
     for fmtn in (LZ10, LZ13):
-        b = facts.body(fmtn + "::decompress")
+        b = facts.ibody(fmtn + "::decompress", combinators=True)
         if b is None:
             continue
         try:
@@ -316,7 +316,7 @@ def ok_provenance(facts, rep, R5):
 
 def error_mapping(facts, rep, R4):
     for fmtn in (LZ10, LZ13):
-        b = facts.body(fmtn + "::decompress")
+        b = facts.ibody(fmtn + "::decompress", combinators=True)
         if b is None:
             continue
         try:
